@@ -1,5 +1,5 @@
 /- REGENERATED on every check run by extract/threadevents from runtime/thread.go — do not edit.
-   source hash (the extracted functions): 0fa360ab3a59c0fa -/
+   source hash (the extracted functions): 7ebfb83aa852551e -/
 import GoluaVerif.Model.CoProto
 namespace GoluaVerif.Generated.ThreadEvents
 open GoluaVerif.Model.CoProto
@@ -30,11 +30,11 @@ def p_Start : Proc := ⟨"Start", [
 def p_Start_go : Proc := ⟨"Start.go", [
   [.recv .self, .touch, .run, .touch, .callEnd]]⟩
 
-/-- runtime/thread.go:283 -/
+/-- runtime/thread.go:290 -/
 def p_getResumeValues : Proc := ⟨"getResumeValues", [
   [.recv .self]]⟩
 
-/-- runtime/thread.go:291 -/
+/-- runtime/thread.go:298 -/
 def p_sendResumeValues : Proc := ⟨"sendResumeValues", [
   [.send .self]]⟩
 
